@@ -52,14 +52,26 @@ def opWalk (args impl : List String) : Verdict :=
     | _, _ => .badCase "walk"
   | _ => .badCase "walk"
 
+/-- `k` calls of `seek_to_next_block`, stopping at the first failure (history before a lookup) -/
+def walkForward (p : Parser) : Nat → Parser
+  | 0 => p
+  | k + 1 =>
+    match p.seekToNextBlock with
+    | .error _ => p
+    | .ok p1 => walkForward p1 k
+
 def opFind (args impl : List String) : Verdict :=
   match args with
-  | [rt, hx, tys] =>
+  | rt :: hx :: tys :: rest =>
     match routeMem? rt, hexToBytes hx, tys.toNat? with
     | some mem, some b, some ty =>
       match init mem b with
       | .error e => expectTokens [toString e.code] impl [s!"find:init{e.code}"]
-      | .ok p =>
+      | .ok p0 =>
+        let hist := match rest with
+          | [ks] => ks.toNat?.getD 0
+          | _ => 0
+        let p := walkForward p0 hist
         match p.findFirstBlockByType ty with
         | .error e => expectTokens ["0", toString e.code] impl [s!"find:rc{e.code}"]
         | .ok p1 =>
